@@ -70,6 +70,8 @@ def generate(seed: int, tier: str) -> Dict[str, Any]:
                 payload["blob"] = "b" * r.choice([300, 5000, 40000])
             logs.append({"stream": r.choice(STREAMS), "payload": payload})
         agents.append({"id": a, "graphs": sorted(r.sample(GRAPHS, r.randint(0, 3))), "logs": logs, "text": E.gen_text(r),
+                       # how the agent's graph set is declared in the state (the driver accepts several forms)
+                       "decl": r.choice(["gba", "gba", "agents", "both", "meta_plus_gba", "agents_obj"]),
                        "deltas": [{"id": "n:%s%d" % (a, j), "delta": r.choice([0.1, -0.2, 0.3])} for j in range(r.randint(0, 3))],
                        "utter": r.choice(["", "hello", "reply from %s" % a])})
     return {"target": "contract", "agents": agents, "workers": r.randint(2, 8), "limits": [1, r.choice([60, 200, 1000, 6000]), 32 * 1024 * 1024],
@@ -128,7 +130,19 @@ def _contract_once(p: Dict[str, Any], mode: str, limit: Optional[int], stats: Di
             cfg = E.make_cfg(raw)
             ctx = types.SimpleNamespace(cfg=cfg, config=cfg, turn_id=p["turn_id"], now_ms=E.T0_MS, now=E.iso_from_ms(E.T0_MS))
             store = _Store()
-            state: Dict[str, Any] = {"store": store, "version_etag": "0", "graphs_by_agent": {a["id"]: list(a["graphs"]) for a in p["agents"]}}
+            state: Dict[str, Any] = {"store": store, "version_etag": "0", "graphs_by_agent": {}, "agents": {}}
+            for a in p["agents"]:
+                decl = a.get("decl", "gba")
+                if decl in ("gba", "both", "meta_plus_gba"):
+                    state["graphs_by_agent"][a["id"]] = list(a["graphs"])
+                if decl in ("agents", "both"):
+                    state["agents"][a["id"]] = {"graphs": list(a["graphs"]), "role": "x"}
+                elif decl == "meta_plus_gba":
+                    state["agents"][a["id"]] = {"role": "registered without a graphs field"}
+                elif decl == "agents_obj":
+                    state["agents"][a["id"]] = types.SimpleNamespace(graphs=list(a["graphs"]))
+            if not state["agents"]:
+                del state["agents"]
             tasks = [(a["id"], a["text"]) for a in p["agents"]]
             core.Orchestrator.run_turn = _mk_stub(spec_by_agent)
             saved_enable = orch.__dict__.get("enable_staging")
